@@ -100,7 +100,7 @@ impl<'a> Sink<'a> {
             self.samples.push(sample_of(idx, sub, &o));
         }
         let Some(v) = o.viol.clone() else { return };
-        let mut oracle = v.oracle.clone();
+        let mut oracle = props::owns_any(self.prop, &v).unwrap_or(&v.oracle).to_string();
         let owned = props::owns(self.prop, &oracle);
         let base = oracle.len() >= 3 && matches!(&oracle[..3], "C01" | "C02" | "C03" | "C04" | "C05");
         let mut report = owned;
